@@ -509,7 +509,30 @@ def stage_check(workdir, cfg, parts, tier, kinds=('dft',)):
     limit = MAX_TAPS_QUICK if tier == 'quick' else 1500
     n_checked = 0
     for i, r in enumerate(recs):
-        if r['what'] != 'design' or r['h'] is None or r['k'] > 0:
+        if r['what'] != 'design' or r['h'] is None:
+            continue
+        if r['k'] > 0:
+            # poly-phase prototype of a rational arbitrary-ratio stage, designed at `phases` x the stage rate (lsx_design_lpf divides
+            # both band edges by the number of phases); short enough only for small L.  Stop band: 2^-bits of the DC gain; pass band: it
+            # carries the roll-off compensation, so the class bound itself.
+            taps = [hx(x) for x in r['h']]
+            n = len(taps)
+            tag = 'poly%d_n%d_ph%d' % (i, n, r['k'])
+            ck.detail[tag] = {'Fp': r['Fp'], 'Fs': r['Fs'], 'Fn': r['Fn'], 'att_designed': r['att'], 'phases': r['k'], 'n': n}
+            if n > limit or n % 2 == 0 or not all(taps[j] == taps[n - 1 - j] for j in range(n // 2)):
+                ck.notes.append('%s: not decided (above the tap limit, even length or not symmetric)' % tag)
+                continue
+            n_checked += 1
+            Fn = abs(r['Fn']) * r['k']
+            dc = sum(taps)
+            c0 = (n - 1) // 2
+            cheb = amp_poly_symmetric({j - c0: taps[j] for j in range(n)})
+            delta = Fraction(2) ** (-bits) * abs(dc)
+            if 'stop' in parts and r['Fs'] / Fn < 1:
+                ck.band(tag + '_stop', cheb, math.pi * r['Fs'] / Fn, math.pi, -delta, delta, timeout, vacuity=(-delta / 10 ** 6, delta / 10 ** 6))
+            if 'pass' in parts:
+                ripc = max(Fraction(class_ripple(d['q']['flags'], bits)), Fraction(2) ** (1 - bits))
+                ck.band(tag + '_pass', cheb, 0.0, math.pi * r['Fp'] / Fn, dc * (1 - ripc), dc * (1 + ripc), timeout)
             continue
         nxt = recs[i + 1] if i + 1 < len(recs) and recs[i + 1]['what'] == 'phase' else None
         taps = [hx(s) for s in (nxt or r)['h']]
